@@ -249,6 +249,50 @@ Definition same_size_pick (sizes : list Z) (cnt : Z) : Z * Z :=
 Definition commit (h : helper) (st : cpuset * cpuset * Z * N) : helper :=
   let '(res, from, cnt, lvl) := st in Helper from cnt res lvl.
 
+(* "allocate non-idle usable cache groups" (second half of takeCacheGroups) *)
+Definition cg_use_usable (h : helper) (usable : list cgroup) (chosen : Z) (st : cpuset * cpuset * Z * N) : helper :=
+  let cand := same_pkg_prefix chosen usable in
+  let sizes := map (λ g, sz (cg_free h g)) cand in
+  match filter (λ g, sz (cg_free h g) =? st.1.2) cand with
+  | g :: _ =>
+      (* single group with exactly the missing number of free CPUs *)
+      let cs := cg_free h g in
+      commit h (st.1.1.1 ∪ cs, st.1.1.2 ∖ cs, 0, st.2)
+  | [] =>
+      let '(ssize, stake) := same_size_pick sizes st.1.2 in
+      let live := negb (stake =? 0) && (1 <? ssize) in
+      let st1 :=
+        if live
+        then fold_left (λ st g, ltake (cg_free h g) st) (filter (λ g, sz (cg_free h g) =? ssize) cand) st
+        else st in
+      (* a.result/a.from/a.cnt as assigned by the same-size branch (if it ran to completion) *)
+      let h1 := if live then commit h (st1.1.1.1, st1.1.1.2, 0, st1.2) else h in
+      if live && negb (st1.1.2 =? 0) then h else
+      let '(grp_cnt, cpu_cnt) := scan_totals sizes st1.1.2 0 0 in
+      if cpu_cnt <? st1.1.2 then h1 else
+      let st2 := cg_take_first h (firstn grp_cnt usable) st1 in
+      let st3 :=
+        if 0 <? st2.1.2 then
+          match last (firstn grp_cnt usable) with
+          | Some g =>
+              let '(use, l3) := alloc_sub (cg_free h g) st2.1.2 in
+              ltake use (st2.1.1.1, st2.1.1.2, st2.1.2, N.max st2.2 l3)
+          | None => st2
+          end
+        else st2 in
+      if negb (st3.1.2 =? 0) then h1
+      else commit h (st3.1.1.1, st3.1.1.2, 0, st3.2)
+  end.
+
+(* takeCacheGroups after sorter.sortCacheGroups(a) *)
+Definition cg_allocate (h : helper) (pref usable : list cgroup) : helper :=
+  let chosen := match pref with g :: _ => cg_pkg g | [] => match usable with g :: _ => cg_pkg g | [] => 0 end end in
+  let prefer_cpus := match pref with _ :: _ => pkg_count h pref chosen | [] => 0 end in
+  let usable_cpus := match pref, usable with [], [] => 0 | _, _ => pkg_count h usable chosen end in
+  if prefer_cpus + usable_cpus <? h_cnt h then h else
+  let st := cg_prefer_loop h pref (h_res h, h_from h, h_cnt h, h_lvl h) in
+  if st.1.2 <=? 0 then commit h st else cg_use_usable h usable chosen st.
+
 Definition take_cache_groups (h : helper) : helper :=
   if Z.of_nat (length (t_groups t)) <=? 1 then h else
   if h_cnt h <? 2 then h else
@@ -256,44 +300,7 @@ Definition take_cache_groups (h : helper) : helper :=
   let usable0 := filter (λ g, is_usable (cg_pick h g)) (t_groups t) in
   let '(pref, l1) := o_cgprefer o h usable0 prefer0 in
   let '(usable, l2) := o_cgusable o h pref usable0 in
-  let h := bump (N.max l1 l2) h in
-  let chosen := match pref with g :: _ => cg_pkg g | [] => match usable with g :: _ => cg_pkg g | [] => 0 end end in
-  let prefer_cpus := match pref with _ :: _ => pkg_count h pref chosen | [] => 0 end in
-  let usable_cpus := match pref, usable with [], [] => 0 | _, _ => pkg_count h usable chosen end in
-  if prefer_cpus + usable_cpus <? h_cnt h then h else
-  let st := cg_prefer_loop h pref (h_res h, h_from h, h_cnt h, h_lvl h) in
-  if st.1.2 <=? 0 then commit h st else
-  let cand := same_pkg_prefix chosen usable in
-  let sizes := map (λ g, sz (cg_free h g)) cand in
-  match filter (λ g, sz (cg_free h g) =? st.1.2) cand with
-  | g :: _ =>
-      (* single group with exactly the missing number of free CPUs *)
-      let '(res, from, cnt, lvl) := st in
-      let cs := cg_free h g in
-      commit h (res ∪ cs, from ∖ cs, 0, lvl)
-  | [] =>
-      let '(ssize, stake) := same_size_pick sizes st.1.2 in
-      let st1 :=
-        if negb (stake =? 0) && (1 <? ssize)
-        then fold_left (λ st g, ltake (cg_free h g) st) (filter (λ g, sz (cg_free h g) =? ssize) cand) st
-        else st in
-      if negb (stake =? 0) && (1 <? ssize) && negb (st1.1.2 =? 0) then h else
-      let '(grp_cnt, cpu_cnt) := scan_totals sizes st1.1.2 0 0 in
-      if cpu_cnt <? st1.1.2 then (if negb (stake =? 0) && (1 <? ssize) then commit h (st1.1.1.1, st1.1.1.2, 0, st1.2) else h) else
-      let st2 := cg_take_first h (firstn grp_cnt usable) st1 in
-      let st3 :=
-        if 0 <? st2.1.2 then
-          match last (firstn grp_cnt usable) with
-          | Some g =>
-              let '(res, from, cnt, lvl) := st2 in
-              let '(use, l3) := alloc_sub (cg_free h g) cnt in
-              ltake use (res, from, cnt, N.max lvl l3)
-          | None => st2
-          end
-        else st2 in
-      if negb (st3.1.2 =? 0) then (if negb (stake =? 0) && (1 <? ssize) then commit h (st1.1.1.1, st1.1.1.2, 0, st1.2) else h)
-      else commit h (st3.1.1.1, st3.1.1.2, 0, st3.2)
-  end.
+  cg_allocate (bump (N.max l1 l2) h) pref usable.
 
 (* ---------------------------------------------------------------- allocate *)
 Definition allocate (flags : N) (h : helper) : helper :=
